@@ -72,7 +72,7 @@ def dfltNonEmpty (s : Src) : Bool := !(triplesOf s.d s.dflt).isEmpty
 /-- Python dict keyed by graph: first occurrence keeps its place -/
 def dedup : List Name → List Name
   | [] => []
-  | g :: gs => if g ∈ gs then dedup gs else g :: dedup gs
+  | g :: gs => g :: sremove (dedup gs) g
 
 def blockOf (d : List Quad) (sp : Name → Spell) (g : Name) : Block := ⟨sp g, triplesOf d g⟩
 
@@ -141,6 +141,19 @@ def patchSpell (s : Src) (g : Name) : Spell := if g = s.dflt then .unnamed else 
 
 def emitPatch (s : Src) : List Block := (ctxList s).map (blockOf s.d (patchSpell s))
 
+/-! ### applying a renaming of blank nodes (used to state "equal up to renaming") -/
+
+def mapTerm (f : Nat → Nat) : Term → Term
+  | .bnode l => .bnode (f l)
+  | t => t
+
+def mapName (f : Nat → Nat) : Name → Name
+  | .bnode l => .bnode (f l)
+  | g => g
+
+def mapTriple (f : Nat → Nat) (t : Triple) : Triple := (mapTerm f t.1, mapTerm f t.2.1, mapTerm f t.2.2)
+def mapQuad (f : Nat → Nat) (q : Quad) : Quad := (mapTriple f q.1, mapName f q.2)
+
 /-! ### routing (parsers; the sink is an empty Dataset) -/
 
 /-- `if context: get_context(context) else default_context`; `get_context(urn:x-rdflib:default)` is the default graph -/
@@ -199,12 +212,15 @@ def rnQuadGFirst (st : LSt) (q : Quad) : LSt × Quad :=
   let t := rnTriple g.1 q.1
   (t.1, (t.2, g.2))
 
-def rnQuads (gFirst : Bool) (st : LSt) : List Quad → LSt × List Quad
+def rnList {α : Type} (r : LSt → α → LSt × α) (st : LSt) : List α → LSt × List α
   | [] => (st, [])
-  | q :: qs =>
-    let r := if gFirst then rnQuadGFirst st q else rnQuadGLast st q
-    let rs := rnQuads gFirst r.1 qs
-    (rs.1, r.2 :: rs.2)
+  | x :: xs =>
+    let a := r st x
+    let as := rnList r a.1 xs
+    (as.1, a.2 :: as.2)
+
+def rnQuads (gFirst : Bool) : LSt → List Quad → LSt × List Quad :=
+  rnList (if gFirst then rnQuadGFirst else rnQuadGLast)
 
 /-- parsers that relabel blank nodes per document (N-Quads, TriG); `fresh` = first unused node id -/
 def routeFresh (gFirst : Bool) (bs : List Block) (fresh : Nat) : List Quad :=
